@@ -9,8 +9,10 @@ Tie (T): C02_guards_as_modelled — the regenerated guard table of the C++ equal
 Statement of the property, clause by clause:
   (a) every read returns what a byte-array model predicts            C02_views_in_bounds, C02_handle_in_bounds,
       (reads/writes go to exactly the addressed bytes of the buffer)  C02_write_read, C02_copyTo_reads, C02_copy_moves_bytes
-  (b) slices and casts share their parent's bytes                     C02_slice_within_parent, C02_slice_alias, C02_cast_alias
-  (c) clones do not                                                   C02_clone_fresh
+  (b) slices and casts share their parent's bytes                     C02_slice_within_parent, C02_slice_alias, C02_cast_alias,
+                                                                      C02_slice_write_parent_read, C02_parent_write_slice_read,
+                                                                      C02_alias_persistent, C02_wrap_shares_host
+  (c) clones do not                                                   C02_clone_fresh, C02_clone_isolated, C02_malloc_fresh
   (d) out-of-range / negative / uninitialised requests raise          C02_rejects_exactly_partial (full statement:
                                                                       C02_rejects_exactly_full, refuted by F05)
   (e) ... without modifying any memory                                C02_err_frame
@@ -160,6 +162,127 @@ theorem C02_slice_alias {s : State} {d src : Nat} {off cnt : Int} {p : View} {o 
 example : view? (step (run init [.malloc 0 8 2 none, .slice 1 0 2 5]) (.slice 2 1 1 (-1))).1 2 = some ⟨2, 6, 8, 2⟩ := by
   decide
 
+theorem view?_of_same {s s' : State} (hm : s'.mems = s.mems) (hv : s'.vars = s.vars) (x : Nat) :
+    view? s' x = view? s x := by
+  unfold view?; rw [hm, hv]
+
+/-- End to end: take a slice `d = src.slice(off, cnt)`, write `k` elements at element `i` through the
+    slice, then read `k` elements at element `off + i` through the PARENT: the read succeeds and
+    returns exactly the bytes written. -/
+theorem C02_slice_write_parent_read {s s1 s2 : State} (h : Inv s) {d src cap : Nat} {off cnt k i : Int} {p : View}
+    {data : List UInt8} {o1 o2 : Option (List Byte)}
+    (hp : view? s src = some p) (hne : src ≠ d) (hk : k ≠ -1)
+    (h1 : step s (.slice d src off cnt) = (s1, .ok o1))
+    (h2 : step s1 (.copyFromHost d data k i) = (s2, .ok o2))
+    (hcap : ((p.esz : Int) * k).toNat ≤ cap) :
+    step s2 (.copyToHost src cap k (off + i)) =
+      (s2, .ok (some ((data.take ((p.esz : Int) * k).toNat).map some))) := by
+  have hok1 : (step s (.slice d src off cnt)).2 = .ok o1 := by rw [h1]
+  obtain ⟨c, hc, hb, he, h0, ho, hle, hin, _⟩ := C02_slice_within_parent hp hok1
+  have hs1 : (step s (.slice d src off cnt)).1 = s1 := by rw [h1]
+  rw [hs1] at hc
+  have hi1 : Inv s1 := by rw [← hs1]; exact step_inv h _
+  -- the parent handle is untouched by the assignment to d
+  have hp1 : view? s1 src = some p := by
+    rw [← hs1]
+    simp only [step, doSlice, sliceExpr, hp]
+    cases hsv : sliceView p off cnt with
+    | error e => simp only [step, doSlice, sliceExpr, hp, hsv, assignTo] at hok1; cases hok1
+    | ok v => simp only [assignTo]; rw [view?_pushMem_old h hne]; exact hp
+  obtain ⟨w0, w1, w2, w3, wm, wv, wspec⟩ := copyFromHost_spec hi1 hc h2
+  have hi2 : Inv s2 := by
+    have := step_inv hi1 (.copyFromHost d data k i); rw [h2] at this; exact this
+  have hp2 : view? s2 src = some p := by rw [view?_of_same wm wv]; exact hp1
+  have hcb : countBytes c k = (p.esz : Int) * k := by unfold countBytes; rw [if_neg hk, he]
+  have hcbp : countBytes p k = (p.esz : Int) * k := by unfold countBytes; rw [if_neg hk]
+  rw [he] at w1 w2
+  rw [hcb] at w0 w2 w3 wspec
+  -- run the read
+  obtain ⟨b2, hb2, hb2l⟩ := hi2.viewOk hp2
+  have hoff : (p.esz : Int) * (off + i) = (p.esz : Int) * off + (p.esz : Int) * i := Int.mul_add _ _ _
+  have hoff0 : 0 ≤ (p.esz : Int) * off := Int.mul_nonneg (Int.natCast_nonneg _) h0
+  simp only [step, doCopyToHost, hp2, hcbp]
+  rw [if_neg (by omega), if_neg (by omega)]
+  have hu : udimLe ((p.esz : Int) * k + (p.esz : Int) * (off + i)) p.size = true := by
+    simp only [udimLe, Bool.and_eq_true, decide_eq_true_eq]; omega
+  rw [if_neg (by simp [hu]), if_neg (by omega), hb2]
+  simp only [Prod.mk.injEq, Res.ok.injEq, Option.some.injEq, true_and]
+  -- compare byte by byte
+  apply List.ext_getElem?
+  intro n
+  by_cases hn : n < ((p.esz : Int) * k).toNat
+  · rw [getElem?_readAt hn]
+    have := wspec p (((p.esz : Int) * (off + i)).toNat + n)
+    unfold byteAt at this
+    rw [hb2] at this
+    simp only [Option.bind_some] at this
+    have hcond : p.buf = c.buf ∧ c.off + ((p.esz : Int) * i).toNat ≤ p.off + (((p.esz : Int) * (off + i)).toNat + n) ∧
+        p.off + (((p.esz : Int) * (off + i)).toNat + n) < c.off + ((p.esz : Int) * i).toNat + ((p.esz : Int) * k).toNat :=
+      ⟨hb.symm, by omega, by omega⟩
+    rw [he] at this
+    rw [if_pos hcond] at this
+    have hidx : p.off + (((p.esz : Int) * (off + i)).toNat + n) - (c.off + ((p.esz : Int) * i).toNat) = n := by omega
+    rw [hidx] at this
+    have e1 : p.off + ((p.esz : Int) * (off + i)).toNat + n = p.off + (((p.esz : Int) * (off + i)).toNat + n) := by omega
+    rw [e1, this]
+    simp only [List.getElem?_map, List.getElem?_take, hn, if_true]
+  · have l1 : (readAt b2 (p.off + ((p.esz : Int) * (off + i)).toNat) ((p.esz : Int) * k).toNat).length = ((p.esz : Int) * k).toNat :=
+      readAt_length (by omega)
+    have l2 : ((data.take ((p.esz : Int) * k).toNat).map some).length = ((p.esz : Int) * k).toNat := by
+      simp only [List.length_map, List.length_take]; omega
+    rw [List.getElem?_eq_none (by omega), List.getElem?_eq_none (by omega)]
+
+example : results init [.malloc 0 4 2 (some [1, 2, 3, 4, 5, 6, 7, 8]), .slice 1 0 1 2, .copyFromHost 1 [9, 9] 1 1, .copyToHost 0 2 1 2] =
+    [.ok none, .ok none, .ok none, .ok (some [some 9, some 9])] := by decide
+
+/-- ... and the other way round: write `k` elements at element `off + i` through the PARENT, read `k`
+    elements at element `i` through the slice: a successful read returns exactly the bytes written. -/
+theorem C02_parent_write_slice_read {s s1 s2 s3 : State} (h : Inv s) {d src cap : Nat} {off cnt k i : Int} {p : View}
+    {data : List UInt8} {o1 o2 o3 : Option (List Byte)}
+    (hp : view? s src = some p) (hne : src ≠ d) (hk : k ≠ -1)
+    (h1 : step s (.slice d src off cnt) = (s1, .ok o1))
+    (h2 : step s1 (.copyFromHost src data k (off + i)) = (s2, .ok o2))
+    (h3 : step s2 (.copyToHost d cap k i) = (s3, .ok o3)) :
+    o3 = some ((data.take ((p.esz : Int) * k).toNat).map some) := by
+  have hok1 : (step s (.slice d src off cnt)).2 = .ok o1 := by rw [h1]
+  obtain ⟨c, hc, hb, he, h0, ho, hle, hin, _⟩ := C02_slice_within_parent hp hok1
+  have hs1 : (step s (.slice d src off cnt)).1 = s1 := by rw [h1]
+  rw [hs1] at hc
+  have hi1 : Inv s1 := by rw [← hs1]; exact step_inv h _
+  have hp1 : view? s1 src = some p := by
+    rw [← hs1]
+    simp only [step, doSlice, sliceExpr, hp]
+    cases hsv : sliceView p off cnt with
+    | error e => simp only [step, doSlice, sliceExpr, hp, hsv, assignTo] at hok1; cases hok1
+    | ok v => simp only [assignTo]; rw [view?_pushMem_old h hne]; exact hp
+  obtain ⟨w0, w1, w2, w3, wm, wv, wspec⟩ := copyFromHost_spec hi1 hp1 h2
+  have hi2 : Inv s2 := by
+    have := step_inv hi1 (.copyFromHost src data k (off + i)); rw [h2] at this; exact this
+  have hc2 : view? s2 d = some c := by rw [view?_of_same wm wv]; exact hc
+  obtain ⟨_, r0, r1, r2, out, ro, rl, rspec⟩ := copyToHost_spec hi2 hc2 h3
+  have hcb : countBytes c k = (p.esz : Int) * k := by unfold countBytes; rw [if_neg hk, he]
+  have hcbp : countBytes p k = (p.esz : Int) * k := by unfold countBytes; rw [if_neg hk]
+  simp only [hcb, he] at r0 r1 r2 rl rspec
+  simp only [hcbp] at w0 w2 w3 wspec
+  have hoff : (p.esz : Int) * (off + i) = (p.esz : Int) * off + (p.esz : Int) * i := Int.mul_add _ _ _
+  have hoff0 : 0 ≤ (p.esz : Int) * off := Int.mul_nonneg (Int.natCast_nonneg _) h0
+  rw [ro]
+  congr 1
+  apply List.ext_getElem?
+  intro n
+  by_cases hn : n < ((p.esz : Int) * k).toNat
+  · rw [rspec n hn, wspec c (((p.esz : Int) * i).toNat + n)]
+    have hcond : c.buf = p.buf ∧ p.off + ((p.esz : Int) * (off + i)).toNat ≤ c.off + (((p.esz : Int) * i).toNat + n) ∧
+        c.off + (((p.esz : Int) * i).toNat + n) < p.off + ((p.esz : Int) * (off + i)).toNat + ((p.esz : Int) * k).toNat :=
+      ⟨hb, by omega, by omega⟩
+    rw [if_pos hcond]
+    have hidx : c.off + (((p.esz : Int) * i).toNat + n) - (p.off + ((p.esz : Int) * (off + i)).toNat) = n := by omega
+    rw [hidx]
+    simp only [List.getElem?_map, List.getElem?_take, hn, if_true]
+  · have l2 : ((data.take ((p.esz : Int) * k).toNat).map some).length = ((p.esz : Int) * k).toNat := by
+      simp only [List.length_map, List.length_take]; omega
+    rw [List.getElem?_eq_none (by omega), List.getElem?_eq_none (by omega)]
+
 /-- A successful `d = src.cast(dtype)` yields a view of the same bytes (the whole elements of the
     source dtype), only the element size differs. -/
 theorem C02_cast_alias {s : State} {d src e : Nat} {p : View} {o : Option (List Byte)}
@@ -245,6 +368,82 @@ theorem C02_clone_isolated {s s' : State} (h : Inv s) {v : Nat} {p c : View} {da
     {o : Option (List Byte)} (hp : view? s v = some p) (hne : c.buf ≠ p.buf)
     (hs : step s (.copyFromHost v data cnt off) = (s', .ok o)) (j : Nat) : byteAt s' c j = byteAt s c j := by
   rw [(copyFromHost_spec h hp hs).2.2.2.2.2.2 c j, if_neg (fun hx => hne hx.1)]
+
+/-! ### fresh allocations and wrapped host arrays -/
+
+/-- A successful non-empty `malloc(n, dtype, ptr)` yields a view that sits alone in a fresh buffer
+    holding the caller's `n·esz` initial bytes (indeterminate bytes when no pointer is given); no
+    older buffer changes. -/
+theorem C02_malloc_fresh {s : State} (h : Inv s) {v : Nat} {n : Int} {e : Nat} {data : Option (List UInt8)}
+    {o : Option (List Byte)} (hn : n ≠ 0) (hok : (step s (.malloc v n e data)).2 = .ok o) :
+    ∃ c, view? (step s (.malloc v n e data)).1 v = some c ∧ c.buf = s.bufs.length ∧ c.off = 0 ∧
+      (c.size : Int) = n * (e : Int) ∧ c.esz = e ∧
+      (∀ (m : Nat) (w : View), s.mems[m]? = some w → w.buf ≠ c.buf) ∧
+      (data = none → bytesOf (step s (.malloc v n e data)).1 c = List.replicate c.size none) ∧
+      (∀ dt, data = some dt → bytesOf (step s (.malloc v n e data)).1 c = (dt.take c.size).map some) ∧
+      (∀ (q : View), q.buf < s.bufs.length → ∀ j, byteAt (step s (.malloc v n e data)).1 q j = byteAt s q j) := by
+  simp only [step, doMalloc] at hok ⊢
+  cases hme : mallocExpr s n e data with
+  | err er => rw [hme] at hok; cases hok
+  | trap => rw [hme] at hok; cases hok
+  | val s1 om =>
+    cases om with
+    | none => exact absurd (mallocExpr_val_none_n hme) hn
+    | some m =>
+      obtain ⟨_, hnn, hm, nb, hnb, hcontent, hs1⟩ := mallocExpr_val hme
+      simp only [assignTo]
+      have hmems : s1.mems = s.mems ++ [rootView s n e] := by rw [hs1]; rfl
+      have hbufs : s1.bufs = s.bufs ++ [nb] := by rw [hs1]
+      have hbytes : bytesOf (setVar s1 v (some m)) (rootView s n e) = nb := by
+        unfold bytesOf
+        have : (setVar s1 v (some m)).bufs[(rootView s n e).buf]? = some nb := by
+          show s1.bufs[s.bufs.length]? = some nb
+          rw [hbufs]; simp
+        rw [this]
+        simp only []
+        have hsz : (rootView s n e).size = nb.length := by rw [hnb]; rfl
+        rw [hsz]
+        unfold readAt
+        show List.take nb.length (List.drop 0 nb) = nb
+        simp
+      refine ⟨rootView s n e, ?_, rfl, rfl, ?_, rfl, ?_, ?_, ?_, ?_⟩
+      · rw [view?_assign, if_pos rfl, hm, hmems]; simp
+      · show (((n * (e : Int)).toNat : Nat) : Int) = n * (e : Int)
+        omega
+      · intro k w hw hb
+        obtain ⟨b, hb1, _⟩ := h.views _ _ hw
+        have : w.buf < s.bufs.length := (List.getElem?_eq_some_iff.mp hb1).1
+        have hb' : w.buf = s.bufs.length := hb
+        omega
+      · intro hd
+        subst hd
+        rw [hbytes, hcontent]; rfl
+      · intro dt hd
+        subst hd
+        rw [hbytes, hcontent]; rfl
+      · intro q hq j
+        unfold byteAt
+        show (s1.bufs[q.buf]?).bind _ = _
+        rw [hbufs, List.getElem?_append_left hq]
+
+/-- A successful `wrapMemory(ptr, n, dtype)` yields a view of the caller's own array from its first
+    byte: the memory and the array are the same bytes (a `hostWrite` is read through the handle and
+    a `copyFrom` through the handle is seen by the caller). -/
+theorem C02_wrap_shares_host {s : State} {v hb : Nat} {n : Int} {e : Nat} {o : Option (List Byte)}
+    (hok : (step s (.wrap v hb n e)).2 = .ok o) :
+    ∃ c, view? (step s (.wrap v hb n e)).1 v = some c ∧ c.buf = hb ∧ c.off = 0 ∧
+      (c.size : Int) = n * (e : Int) ∧ c.esz = e ∧ hb < nHostBufs := by
+  simp only [step, doWrap, wrapExpr] at hok ⊢
+  by_cases h1 : n * (e : Int) ≥ 0
+  case neg => rw [if_pos h1] at hok; cases hok
+  rw [if_neg (not_not_intro h1)] at hok ⊢
+  by_cases h2 : hb < nHostBufs ∧ (n * (e : Int)).toNat ≤ hostBufSize
+  case neg => rw [if_pos h2] at hok; cases hok
+  rw [if_neg (not_not_intro h2)]
+  simp only [assignTo]
+  exact ⟨_, view?_pushMem_new, rfl, rfl, by simp only []; omega, rfl, h2.1⟩
+
+example : view? (run init [.wrap 0 1 4 2]) 0 = some ⟨1, 0, 8, 2⟩ := by decide
 
 /-! ### (d) exactly the invalid requests are rejected -/
 
